@@ -148,7 +148,7 @@ func (store *Store) Write(database int, command []byte) error {
 	// log the SELECT command before logging the incoming command.
 	// This allows us to switch databases appropriately when restoring the state on startup.
 	if database != store.currentDatabase {
-		_, err := store.rw.Write([]byte(fmt.Sprintf("*2\r\n$6\r\nSELECT\r\n$1\r\n%s\r\n", strconv.Itoa(database))))
+		_, err := store.rw.Write(selectMarker(database))
 		if err != nil {
 			return fmt.Errorf("log select error: %+v", err)
 		}
@@ -166,6 +166,12 @@ func (store *Store) Write(database int, command []byte) error {
 	}
 
 	return nil
+}
+
+// selectMarker is the record that switches the database for the records that follow it.
+func selectMarker(database int) []byte {
+	index := strconv.Itoa(database)
+	return []byte(fmt.Sprintf("*2\r\n$6\r\nSELECT\r\n$%d\r\n%s\r\n", len(index), index))
 }
 
 func (store *Store) Sync() error {
@@ -237,13 +243,14 @@ func (store *Store) Truncate() error {
 	}
 
 	// Add command to select the current database at the top of the file.
-	_, err := store.rw.Write([]byte(
-		fmt.Sprintf("*2\r\n$6\r\nSELECT\r\n$1\r\n%s\r\n", strconv.Itoa(store.currentDatabase))))
-	if err != nil {
-		return fmt.Errorf("truncate: log select error: %+v", err)
+	// Nothing has been logged yet when the index is negative: the first write adds its own marker.
+	if store.currentDatabase >= 0 {
+		if _, err := store.rw.Write(selectMarker(store.currentDatabase)); err != nil {
+			return fmt.Errorf("truncate: log select error: %+v", err)
+		}
 	}
 	// Immediately sync the file.
-	if err = store.rw.Sync(); err != nil {
+	if err := store.rw.Sync(); err != nil {
 		return fmt.Errorf("truncate: sync error: %+v", err)
 	}
 
